@@ -46,6 +46,8 @@ THEOREMS = [
     "IrVerif.Scope.C17_consistent_ext",
     "IrVerif.Scope.C17_total_ext",
     "IrVerif.Scope.C17_ext_sharding_named",
+    "IrVerif.Scope.C17_ext_erasure_model",
+    "IrVerif.Scope.C17_ext_sharding_named_model",
     "IrVerif.Scope.C17_idempotent_partial",
 ]
 ASSUMPTIONS = [
@@ -62,8 +64,9 @@ ASSUMPTIONS = [
     "MERGED over every entry that reaches a value, quantization annotations, the value each sharding spec "
     "resolves to. It erases to the core model (C17_ext_erasure), so consistency is a theorem (C17_consistent_ext); "
     "its serialize-deserialize fix-point is NOT a theorem: the model's first and second re-serialization are "
-    "compared with the real ones on every field case (counter ext_model_fixpoint). Function bodies are not part "
-    "of the extended model",
+    "compared with the real ones on every field case (counter ext_model_fixpoint). Function bodies are part of it "
+    "for IR version >= 10 (scope.medeser; C17_ext_erasure_model, C17_ext_sharding_named_model); below IR version "
+    "10 only the main graph is",
     "IR version < 10 function value-info format (Model/ScopeFunc9.lean, scope.mdeser9): modelled (post-pass, "
     "experimental names, reserved names of D320's repair); C17_ir9_not_idempotent refutes the fix-point for the code "
     "before the repair; for the repaired code the fix-point is differential (model Q and Q2 against the real "
@@ -555,6 +558,18 @@ def mutate_ext(rng, m: onnx.ModelProto, hist: dict) -> None:
                                         ("", ""), ("k", "v")], k=rng.randrange(0, 4)):
                     kv = a.quant_parameter_tensor_names.add()
                     kv.key, kv.value = k, v
+        elif len(m.functions) and m.ir_version >= 10 and rng.random() < 0.4 and any(len(f.node) for f in m.functions):
+            # a device configuration on a node of a FUNCTION body: resolved in the function's own scope
+            m.ir_version = rng.choice([11, 11, 12, 10])
+            f = rng.choice([f for f in m.functions if len(f.node)])
+            n = rng.choice(list(f.node))
+            dc = n.device_configurations.add()
+            dc.configuration_id = rng.choice(["cfg0", "cfg0", ""])
+            fnames = [x for x in list(f.input) + [y for nn in f.node for y in list(nn.input) + list(nn.output)] if x]
+            for _ in range(rng.randrange(1, 4)):
+                sp = dc.sharding_spec.add()
+                sp.tensor_name = rng.choice(fnames + names[:2] + ["ghost_s", ""])
+            hist["ext=shard_in_function"] = hist.get("ext=shard_in_function", 0) + 1
         elif len(g.node):
             m.ir_version = rng.choice([11, 11, 12, 10])
             n = rng.choice(list(g.node))
@@ -921,9 +936,14 @@ def run_case(part, m: onnx.ModelProto, stream: str, want_model: bool, lean_reqs:
     # ---- extended model (Model/ScopeExt.lean): value metadata merge, quantization annotations, sharding values
     if gp is not None:
         try:
-            ge = sm.graph_proto_to_ext(m.graph, {})
-            lean_reqs.append({"m": "scope.edeser", "p": ge, "ver": int(m.ir_version)})
-            pending.append(("E", case, flags, model, err, q, m))
+            if mp is not None:
+                # IR version >= 10 with functions: main graph AND function bodies
+                lean_reqs.append({"m": "scope.medeser", "ver": int(m.ir_version), **sm.model_proto_to_ext(m, {})})
+                pending.append(("E", case, dict(flags, ext_functions=1), model, err, q, m))
+            else:
+                ge = sm.graph_proto_to_ext(m.graph, {})
+                lean_reqs.append({"m": "scope.edeser", "p": ge, "ver": int(m.ir_version)})
+                pending.append(("E", case, flags, model, err, q, m))
         except sc.OutsideModel as e:
             part.count(f"ext_outside_model={e.args[0][:30]}")
         except RecursionError:
@@ -1163,8 +1183,12 @@ def diff_ext(part, out: dict, case, flags, model, err, q, m) -> None:
     if err is not None or not out.get("ok"):
         return  # raise / no raise is compared by the core request of the same case
     part.count("ext_cases")
+    wf = bool(flags.get("ext_functions"))
+    if wf:
+        part.count("ext_cases_with_functions")
+    to_ext = sm.model_proto_to_ext if wf else (lambda mm, fl: sm.graph_proto_to_ext(mm.graph, fl))
     try:
-        real = sm.canon_world_ext(sm.ir_graph_to_world_ext(model.graph))
+        real = sm.canon_world_ext(sm.ir_model_to_world_ext(model) if wf else sm.ir_graph_to_world_ext(model.graph))
     except sc.OutsideModel as e:
         part.count(f"ext_ir_outside_model={e.args[0][:30]}")
         return
@@ -1182,7 +1206,7 @@ def diff_ext(part, out: dict, case, flags, model, err, q, m) -> None:
         part.count("ext_with_value_metadata")
     if any(sp[0] is not None for ds in real["ext"]["devs"] for d in ds for sp in d["specs"]):
         part.count("ext_with_sharding_value")
-    func_devs = any(len(n.device_configurations) for f in m.functions for n in f.node)
+    func_devs = (not wf) and any(len(n.device_configurations) for f in m.functions for n in f.node)
     if q is None:
         why = flags.get("to_proto_error", "")
         if any(k in why for k in sm.DEVICE_ERRORS):
@@ -1199,12 +1223,12 @@ def diff_ext(part, out: dict, case, flags, model, err, q, m) -> None:
     if len(q.functions) and q.ir_version < 10:
         return  # the main graph's value_info also carries the experimental entries of the functions (ScopeFunc9)
     try:
-        rq = sm.graph_proto_to_ext(q.graph, {})
+        rq = to_ext(q, {})
     except (sc.OutsideModel, RecursionError):
         return
     if rq != out["q"]:
         d = sm.first_difference(rq, out["q"])
-        part.disagree(f"extended model: re-serialized main graph differs at {d}", case, out["q"], rq)
+        part.disagree(f"extended model: re-serialized {'model' if wf else 'main graph'} differs at {d}", case, out["q"], rq)
         return
     part.count("ext_first_serialization_agrees")
     q2 = flags.get("_q2")
@@ -1214,7 +1238,7 @@ def diff_ext(part, out: dict, case, flags, model, err, q, m) -> None:
         part.disagree("extended model: second round raises, the real code does not", case, "raised", "ok")
         return
     try:
-        rq2 = sm.graph_proto_to_ext(q2.graph, {})
+        rq2 = to_ext(q2, {})
     except (sc.OutsideModel, RecursionError):
         return
     if rq2 != out["q2"]:
